@@ -6,6 +6,7 @@
 //   rils  : [trials]                payload = value            -> per set: action, value
 //   move  : [nobj]                  payload = nobj values      -> per set: n { vals, tagkeys, tagvals }
 //   vemix|lsmix|mpmix|rilsmix : nseg { A rules }  one maximiser over different action spaces -> per segment: action, value
+//   veq|lsq|mpq|rilsq : as ve|ls|mp|rils (no order for veq) but every set is a QFunction: nbases { tag, dense values }
 //   ucve  : [logtA]                 payload = mean bonus       -> per set: action, mean, bonus
 // All rule sets of one case are run in order on the SAME maximiser (and, where the API has one,
 // the same graph object); VE additionally shares one process-wide maximiser + graph.
@@ -34,6 +35,35 @@ static std::vector<fb::QFunctionRule> readRules(vio::Cursor & c) {
         rules.push_back(fb::QFunctionRule{pa, v});
     }
     return rules;
+}
+
+// QFunction (FactoredVector) input: <nbases> { <tag> <dense values over the tag's local joint actions> };
+// several bases may share one tag (their sum is the function)
+static fb::QFunction readQF(vio::Cursor & c) {
+    size_t n = c.nextSize();
+    fb::QFunction qf;
+    for (size_t i = 0; i < n; ++i) {
+        auto tag = readFactors(c);
+        auto vals = c.nextDoubles();
+        Vector v(vals.size());
+        for (size_t k = 0; k < vals.size(); ++k) v[k] = vals[k];
+        qf.bases.push_back(BasisFunction{PartialKeys(tag.begin(), tag.end()), v});
+    }
+    return qf;
+}
+
+template <typename Maximizer, typename Make>
+static void runApproxQF(vio::Cursor & c, vio::Out & o, const Action & A, Make && make) {
+    size_t nsets = c.nextSize();
+    std::vector<fb::QFunction> sets;
+    for (size_t s = 0; s < nsets; ++s) sets.push_back(readQF(c));
+    Maximizer m = make();
+    auto graph = fb::MakeGraph<Maximizer>()(sets.at(0), A);
+    for (size_t s = 0; s < nsets; ++s) {
+        fb::UpdateGraph<Maximizer>()(graph, sets[s], A);
+        auto [a, v] = m(A, graph);
+        o.list(a); o << v;
+    }
 }
 
 // process-wide objects: reuse across calls and cases
@@ -69,6 +99,23 @@ int main(int argc, char ** argv) {
                 auto [a, v] = g_ve(A, g_veGraph);
                 o.list(a); o << v;
             }
+        } else if (kind == "veq") {
+            size_t nsets = c.nextSize();
+            for (size_t s = 0; s < nsets; ++s) {
+                auto qf = readQF(c);
+                fb::UpdateGraph<fb::VariableElimination>()(g_veGraph, qf, A);
+                auto [a, v] = g_ve(A, g_veGraph);
+                o.list(a); o << v;
+            }
+        } else if (kind == "lsq") {
+            runApproxQF<fb::LocalSearch>(c, o, A, []{ return fb::LocalSearch(); });
+        } else if (kind == "mpq") {
+            unsigned iters = (unsigned) c.nextSize();
+            runApproxQF<fb::MaxPlus>(c, o, A, [iters]{ return fb::MaxPlus(iters); });
+        } else if (kind == "rilsq") {
+            unsigned trials = (unsigned) c.nextSize();
+            bool force = c.nextSize() != 0;
+            runApproxQF<fb::ReusingIterativeLocalSearch>(c, o, A, [trials, force]{ return fb::ReusingIterativeLocalSearch(0.3, 0.3, trials, force); });
         } else if (kind == "ls") {
             runApprox<fb::LocalSearch>(c, o, A, []{ return fb::LocalSearch(); });
         } else if (kind == "mp") {
